@@ -125,12 +125,39 @@ def _raw_hugr(spec):
 # ----------------------------------------------------------------------------- built HUGRs
 
 
+PROG_FAMILIES = [None, "dfg", "function", "module", "cfg", "conditional", "tailloop", "tracked"]
+
+
 def _gen_built(rng):
+    prog = None
+    if rng.random() < 0.45:
+        # a generated well-formed builder program (harness/gen_prog.py: every builder family, CFGs, aliases,
+        # polymorphic calls, function values, tags, partial ops …) instead of the module generator
+        prog = [rng.randrange(2**31), rng.randint(3, 24), rng.choice(PROG_FAMILIES)]
     return {
-        "kind": "built", "seed": rng.randrange(10**6), "size": rng.randint(1, 4),
+        "kind": "built", "seed": rng.randrange(10**6), "size": rng.randint(1, 4), "prog": prog,
         "muts": [[rng.choice(["node", "order", "delnode", "insert", "meta", "reqs", "polycall"]), rng.randrange(10**6)] for _ in range(rng.randint(0, 5))],
         "probe": rng.randrange(6) if rng.random() < 0.5 else None,
     }
+
+
+def _prog_hugr(p):
+    """the HUGR of the first top-level builder of the generated program (seed, size, family)"""
+    import random
+
+    import gen_prog
+    import progs
+
+    seed, size, fam = p
+    opts = {"to_json": True}
+    if fam:
+        opts["family"] = fam
+    prog = gen_prog.gen_wf_program(random.Random(seed), size, opts)
+    r = progs.run_program(prog)
+    if any(o[0] == "err" for o in r["outcomes"]):
+        raise ValueError("builder program raised")
+    tj = [c for c in prog if c[0] == "to_json"]
+    return r["env"].builder(tj[0][1]).hugr
 
 
 def _built_hugr(spec):
@@ -139,7 +166,7 @@ def _built_hugr(spec):
     from hugr import ops, tys
     from props import C09
 
-    h = C09.build_module(spec["seed"], spec["size"])
+    h = _prog_hugr(spec["prog"]) if spec.get("prog") else C09.build_module(spec["seed"], spec["size"])
     extra = []
     for i, (kind, sd) in enumerate(spec["muts"]):
         if spec.get("probe") == i:
@@ -480,6 +507,8 @@ def nontrivial(spec, obs):
 
 def stats(spec, obs, counters):
     counters[f"kind.{spec['kind']}"] += 1
+    if spec.get("prog"):
+        counters[f"built.from-program.{spec['prog'][2] or 'mixed'}"] += 1
     counters[f"outcome.{obs if len(obs) < 20 else 'roundtrip'}"] += 1
     if spec["kind"] == "raw":
         ks = [o[0] for o in spec["ops"]]
